@@ -201,6 +201,14 @@ func All() []Program {
 			"page.vuego":               `<div><my-badge label="L {{ who }}" :n="num"></my-badge><my-badge label="two"></my-badge></div>` + end,
 			"components/MyBadge.vuego": `<span class="badge">{{ label }}:{{ n }}</span>`,
 		}, Data: map[string]vals.V{"who": s("shWHO"), "num": n(9)}, Feat: []string{"shorthand", "include"}},
+		// a document nested deeper than any fixed-size table in the serialiser (140 levels,
+		// plus a recursive component 70 levels deep: two elements per level)
+		{Name: "deep-nesting", Files: map[string]string{"page.vuego": strings.Repeat(`<div>`, 140) + `<p>bottom {{ who }}</p>` + strings.Repeat(`</div>`, 140) + end},
+			Data: map[string]vals.V{"who": s("deepWHO")}, Feat: []string{"deep"}},
+		{Name: "deep-recursion", Files: map[string]string{
+			"page.vuego":   `<section><template include="thread.vuego" :node="tree"></template></section>` + end,
+			"thread.vuego": `<ul><li><b>{{ node.name }}</b><template v-if="node.kid" include="thread.vuego" :node="node.kid"></template></li></ul>`,
+		}, Data: deepTree(70), Feat: []string{"deep", "include"}},
 		{Name: "struct-data", Files: map[string]string{"page.vuego": `<p>{{ rec.Name }} {{ rec.title }} {{ rec.Kids[0].Name }}</p><b v-for="k in rec.Kids" :title="k.title">{{ k.Name }}</b><i v-if="rec.Flag">flag</i>` + end},
 			Data: map[string]vals.V{"rec": {K: "*rec", M: map[string]vals.V{"Name": s("structWHO"), "Title": s("T"), "Flag": vals.Bool(true), "Kids": {K: "[]rec", L: []vals.V{{K: "rec", M: map[string]vals.V{"Name": s("kid1"), "Title": s("kt1")}}, {K: "rec", M: map[string]vals.V{"Name": s("kid2"), "Title": s("kt2")}}}}}}}, Feat: []string{"struct", "paths"}},
 
@@ -265,4 +273,13 @@ func Names() []string {
 		out = append(out, p.Name)
 	}
 	return out
+}
+
+// deepTree is page data {who, tree}: tree is a chain of n nested {name, kid} maps.
+func deepTree(n int) map[string]vals.V {
+	node := vals.Map(map[string]vals.V{"name": vals.Str("leaf")})
+	for i := n - 1; i > 0; i-- {
+		node = vals.Map(map[string]vals.V{"name": vals.Str(fmt.Sprintf("n%d", i)), "kid": node})
+	}
+	return map[string]vals.V{"who": vals.Str("World"), "tree": node}
 }
